@@ -242,9 +242,13 @@ func (p *Point) Compress() [32]byte {
 // Decompress a compressed Point into p, and also returns the decompressed
 // Point.  Returns error if the compressed Point is invalid.
 func (p *Point) Decompress(leBuf [32]byte) (*Point, error) {
-	var sign bool
-	sign, p.Y = UnpackSignY(leBuf)
-	return PointFromSignAndY(sign, p.Y)
+	sign, y := UnpackSignY(leBuf)
+	res, err := PointFromSignAndY(sign, y)
+	if err != nil {
+		return nil, err
+	}
+	p.X, p.Y = res.X, res.Y
+	return p, nil
 }
 
 // PointFromSignAndY returns a Point from a Sign and the Y coordinate
